@@ -156,16 +156,20 @@ def _violate(r, desc, v, target, info=None):
         return r.choice([b1 + 1, a2 - 1, a1 - 1, b2 + 1, b2 + 2 ** 40])      # in the gap or just outside
     if k == 'INTEGER' and 'refine_values' in con and hit and r.random() < 0.6:
         # inside the inherited range, outside the refinement
-        lo, hi = con['range']
+        lo, hi = U.gen_bounds(con['range'])
         inside = [x for x in (lo + 1, hi - 1, (lo + hi) // 2 + 1, lo + 2) if lo <= x <= hi and x not in con['refine_values']]
         if inside:
             return r.choice(inside)
     if k == 'INTEGER' and 'range' in con and hit:
         lo, hi = con['range']
+        if hi == 'MAX':
+            return r.choice([lo - 1, lo - 1, lo - 129, lo - 70000, -2 ** 63])       # only the finite end can be violated
+        if lo == 'MIN':
+            return r.choice([hi + 1, hi + 1, hi + 2 ** 40])
         return r.choice([lo - 1, hi + 1, lo - 129, lo - 70000, hi + 2 ** 40, -2 ** 63])
     if k in ('OCTETSTRING',) and 'size' in con and hit:
         lo, hi = con['size']
-        n = r.choice([max(0, lo - 1), hi + 1, hi + 40])
+        n = max(0, lo - 1) if hi == 'MAX' else r.choice([max(0, lo - 1), hi + 1, hi + 40])
         if isinstance(v, str) and r.random() < 0.5:
             cur = bytes.fromhex(v)
             return (cur + bytes(max(0, n - len(cur))))[:n].hex() if r.random() < 0.5 else (bytes(max(0, n - len(cur))) + cur)[-n or len(cur) + 1:].hex()
@@ -177,6 +181,7 @@ def _violate(r, desc, v, target, info=None):
         ch = r.choice(outside + ['\n', '\n'])
         text = v if isinstance(v, str) else ''
         lo, hi = con.get('size', [0, None])
+        hi = None if hi == 'MAX' else hi
         if not text or (hi is not None and len(text) < hi and r.random() < 0.3):
             pos = len(text)
             return text + ch
@@ -184,11 +189,11 @@ def _violate(r, desc, v, target, info=None):
         return text[:pos] + ch + text[pos + 1:]
     if k in U.CHARS and 'size' in con and hit:
         lo, hi = con['size']
-        n = r.choice([max(0, lo - 1), hi + 1, hi + 40])
+        n = max(0, lo - 1) if hi == 'MAX' else r.choice([max(0, lo - 1), hi + 1, hi + 40])
         return ''.join(r.choice(U.ALPHABETS[k]) for _ in range(n))
     if k == 'BITSTRING' and 'size' in con and hit:
         lo, hi = con['size']
-        n = r.choice([max(0, lo - 1), hi + 1, hi + 9])
+        n = max(0, lo - 1) if hi == 'MAX' else r.choice([max(0, lo - 1), hi + 1, hi + 9])
         if isinstance(v, str) and r.random() < 0.5:
             # the closest foreign values: the same number with another length (leading zero bits added or removed)
             if n > len(v):
@@ -206,7 +211,7 @@ def _violate(r, desc, v, target, info=None):
         items = list(v)
         if 'size' in con and hit:
             lo, hi = con['size']
-            n = r.choice([max(0, lo - 1), hi + 1, hi + 3])
+            n = max(0, lo - 1) if hi == 'MAX' else r.choice([max(0, lo - 1), hi + 1, hi + 3])
             while len(items) < n:
                 items.append(U.gen_value(r, desc['of'], U.ValCfg(small=True)))
             items = items[:n]
@@ -311,7 +316,8 @@ def execute(plan):
             inv, why = _accepted_value_problem(wl, decname, dec, v, kw)
             if inv:
                 raise W.Violation(inv, why=why, input_hex=b.hex()[:300], mode=plan['mode'], pristine=pristine,
-                                  exc_cls=_sig_part(inv, why), result_has_time=_contains_time(v))
+                                  exc_cls=_sig_part(inv, why), result_has_time=_contains_time(v),
+                                  result_has_constructed_string_tag=_contains_constructed_string(v))
     except W.Violation as viol:
         sig = [viol.invariant, viol.detail.get('exc_cls'), decname]
         return common.violation_result(viol, sig, trace, ctr, None, None, {'kind': 'bytes'}, wl)
@@ -350,6 +356,37 @@ def _contains_time(obj, depth=0):
             except Exception:
                 c = None
             if c is not None and _contains_time(c, depth + 1):
+                return True
+    return False
+
+
+def _contains_constructed_string(obj, depth=0):
+    """Does the accepted value hold a string-typed object whose own tagSet says 'constructed' (the identifier octet
+    of the constructed form it was decoded from without a type)?  Used only to recognise the open finding F35."""
+    univ = U.p.univ
+    if depth > 12:
+        return False
+    if isinstance(obj, (univ.OctetString, univ.BitString)):
+        try:
+            return any(t.tagFormat == U.p.tag.tagFormatConstructed for t in obj.tagSet.superTags[:1])
+        except Exception:
+            return False
+    if isinstance(obj, univ.Choice):
+        try:
+            return _contains_constructed_string(obj.getComponent(), depth + 1)
+        except Exception:
+            return False
+    if isinstance(obj, (univ.Sequence, univ.Set, univ.SequenceOf, univ.SetOf)):
+        try:
+            n = len(obj.componentType) if isinstance(obj, (univ.Sequence, univ.Set)) and len(obj.componentType) else len(obj)
+        except Exception:
+            return False
+        for i in range(n):
+            try:
+                c = obj.getComponentByPosition(i, default=None, instantiate=False)
+            except Exception:
+                c = None
+            if c is not None and _contains_constructed_string(c, depth + 1):
                 return True
     return False
 
